@@ -20,6 +20,10 @@ type c07Case struct {
 	Kind string  `json:"kind"` // nmi | im1 | im2 | im0rst | im0call
 	K    int     `json:"k"`    // number of Steps before the request is raised
 	Arg  int     `json:"arg"`  // im2: vector; im0rst: p
+	// optional second request on the same CPU value, raised Gap Steps after the first handler has returned
+	Second string `json:"second,omitempty"`
+	Gap    int    `json:"gap,omitempty"`
+	Arg2   int    `json:"arg2,omitempty"`
 }
 
 const c07MaxSteps = 20000
@@ -88,22 +92,28 @@ func (r *c07Rig) undisturbed(p *program, im int) c07Ref {
 
 type c07Outcome struct {
 	msg      string
-	known    bool
+	known    bool // run excluded: acceptance reproduced the known finding in a way that cannot be compensated
+	repaired int  // acceptances that reproduced the known finding exactly and whose return address was put right by the harness
 	accepted bool
+	nAcc     int
 	labels   []string
 }
 
 func (r *c07Rig) request(c *c07Case) (*z80.Interrupt, int, int) {
+	return r.requestOf(c, c.Kind, c.Arg)
+}
+
+func (r *c07Rig) requestOf(c *c07Case, kind string, arg int) (*z80.Interrupt, int, int) {
 	L := &c.Prog.L
-	switch c.Kind {
+	switch kind {
 	case "nmi":
 		return z80.NMIInterrupt(), 0, 0
 	case "im1":
 		return z80.IM1Interrupt(), 1, 0
 	case "im2":
-		return z80.IM2Interrupt(uint8(c.Arg)), 2, 0
+		return z80.IM2Interrupt(uint8(arg)), 2, 0
 	case "im0rst":
-		return z80.IM0Interrupt(uint8(0xC7 | c.Arg<<3)), 0, 1
+		return z80.IM0Interrupt(uint8(0xC7 | arg<<3)), 0, 1
 	default:
 		return z80.IM0Interrupt(0xCD, uint8(L.HMask), uint8(L.HMask>>8)), 0, 3
 	}
@@ -133,25 +143,36 @@ func (r *c07Rig) inject(c *c07Case, ref *c07Ref) c07Outcome {
 	if parkedAtInjection {
 		o.labels = append(o.labels, "parked")
 	}
-	var spAcc uint16
+	var spAccs []uint16
 	done := false
-	for n := 0; n < ref.n+80; n++ {
+	secondLeft := -1 // Steps until the second request is raised (-1: not armed)
+	curReq, curLen := req, ilen
+	for n := 0; n < ref.n+160; n++ {
 		pc, sp := cpu.PC, cpu.SP
 		pending := cpu.Interrupt != nil
 		pre := cpu.States
-		if pending && ilen > 0 && cpu.IFF1 {
+		if pending && curLen > 0 && cpu.IFF1 {
 			r.snap = r.m.m
 		}
 		cpu.Step()
 		if pending && cpu.Interrupt == nil {
 			// acceptance Step: the pushed word is the address of the first instruction not yet executed
 			o.accepted = true
-			spAcc = sp
+			o.nAcc++
+			spAccs = append(spAccs, sp)
 			pushed := uint16(r.m.m[cpu.SP]) | uint16(r.m.m[cpu.SP+1])<<8
-			parked := r.m.m[pc] == 0x76 && (pc == p.L.Halt || pc == p.L.Halt+1) && parkedAtInjection
+			parked := r.m.m[pc] == 0x76 && pc >= p.L.Halt && pc <= p.L.Halt+2 && (parkedAtInjection || o.nAcc > 1)
 			ok := cpu.SP == sp-2 && (pushed == pc || (parked && pushed == pc+1))
 			if !ok {
-				if ilen > 0 && env.Known[sigIm0] && r.im0QuirkMatches(pre, req.Data) {
+				if curLen > 0 && env.Known[sigIm0] && r.im0QuirkMatches(pre, curReq.Data) {
+					if cpu.SP == sp-2 && pushed == pc+uint16(curLen) && !(pc > 0xFFFF-uint16(curLen)) {
+						// the plain manifestation of the known finding: only the return address is off. Put it
+						// right and go on: everything else about this acceptance and the rest of the run is
+						// still decided (and a later request meets a CPU value that has served one before)
+						r.m.m[cpu.SP], r.m.m[cpu.SP+1] = uint8(pc), uint8(pc>>8)
+						o.repaired++
+						continue
+					}
 					o.known = true
 					return o
 				}
@@ -165,12 +186,29 @@ func (r *c07Rig) inject(c *c07Case, ref *c07Ref) c07Outcome {
 			if r.m.m[pc] == 0xED && r.m.m[pc+1]&0xF4 == 0xB0 && c.K > 0 {
 				o.labels = append(o.labels, "inside-block-repeat?")
 			}
-			if pc >= p.L.Halt+2 && pc < p.L.CodeEnd {
+			if pc >= p.L.Halt+4 && pc < p.L.CodeEnd {
 				o.labels = append(o.labels, "inside-subroutine")
 			}
 			continue
 		}
-		if haltExecuted(pc, cpu.PC, &r.m) && (cpu.PC == p.L.Halt || cpu.PC == p.L.Halt+1) {
+		// second request: armed once the first handler has returned (counter written, stack level restored)
+		if c.Second != "" && o.nAcc == 1 && secondLeft < 0 && cpu.Interrupt == nil && r.m.m[p.L.Cnt] == 1 && cpu.SP == spAccs[0] &&
+			!(cpu.PC >= p.L.HMask && cpu.PC < p.L.HMask+0x40) && !(cpu.PC >= p.L.HNMI && cpu.PC < p.L.HNMI+0x40) && cpu.PC >= 0x40 {
+			secondLeft = c.Gap
+		}
+		if secondLeft == 0 {
+			curReq, _, curLen = r.requestOf(c, c.Second, c.Arg2)
+			cpu.Interrupt = curReq
+			maskable = c.Second != "nmi"
+			secondLeft = -2
+			o.labels = append(o.labels, "second-request")
+		} else if secondLeft > 0 {
+			secondLeft--
+		}
+		if haltExecuted(pc, cpu.PC, &r.m) && cpu.PC >= p.L.Halt && cpu.PC <= p.L.Halt+3 {
+			if secondLeft >= 0 {
+				continue // the second request is still to come (it will find the program parked)
+			}
 			if cpu.Interrupt == nil || (maskable && !cpu.IFF1) {
 				done = true
 				break
@@ -184,7 +222,7 @@ func (r *c07Rig) inject(c *c07Case, ref *c07Ref) c07Outcome {
 	// final comparison
 	got, want := cpu.States, ref.st
 	got.IR.Lo, want.IR.Lo = got.IR.Lo&0x80, want.IR.Lo&0x80 // the counter bits differ by the handler's fetches; bit 7 must survive
-	if got.PC == p.L.Halt+1 && parkedAtInjection {
+	if got.PC > p.L.Halt && got.PC <= p.L.Halt+2 && (parkedAtInjection || o.nAcc > 1) {
 		got.PC = p.L.Halt
 	}
 	if got != want {
@@ -197,20 +235,21 @@ func (r *c07Rig) inject(c *c07Case, ref *c07Ref) c07Outcome {
 		return o
 	}
 	cnt := r.m.m[p.L.Cnt]
-	if o.accepted {
-		if cnt != 1 {
-			o.msg = fmt.Sprintf("handler ran %d times, want 1", cnt)
-			return o
-		}
-	} else {
-		if cnt != 0 || cpu.Interrupt == nil {
-			o.msg = fmt.Sprintf("request never accepted but handler count=%d pending=%v", cnt, cpu.Interrupt != nil)
-			return o
-		}
+	if int(cnt) != o.nAcc {
+		o.msg = fmt.Sprintf("handler ran %d times for %d accepted requests", cnt, o.nAcc)
+		return o
+	}
+	raised := 1
+	if secondLeft == -2 {
+		raised = 2
+	}
+	if o.nAcc < raised && cpu.Interrupt == nil {
+		o.msg = fmt.Sprintf("%d requests raised, %d accepted, none pending: a request was lost", raised, o.nAcc)
+		return o
 	}
 	// memory: everything except the stack bytes below SP at acceptance and the counter
 	r.m.m[p.L.Cnt] = r.m0.m[p.L.Cnt]
-	if o.accepted {
+	for _, spAcc := range spAccs {
 		for i := uint16(1); i <= 16; i++ {
 			r.m.m[spAcc-i] = r.m0.m[spAcc-i]
 		}
@@ -331,6 +370,10 @@ func TestC07(t *testing.T) {
 				c.K = k
 				o := rig.inject(&c, &ref)
 				col.Eval(1)
+				for i := 0; i < o.repaired; i++ {
+					col.Known(sigIm0, c06Known[sigIm0])
+					col.Label("known-finding:return-address-compensated,run-decided")
+				}
 				if o.known {
 					col.Known(sigIm0, c06Known[sigIm0])
 					continue
@@ -354,6 +397,39 @@ func TestC07(t *testing.T) {
 					col.Label("never-accepted")
 				}
 			}
+			// a second request later in the same run, on the CPU value that has already served the first
+			seconds := map[string][]string{"nmi": {"nmi", "im0rst", "im0call"}, "im0rst": {"nmi", "im0rst", "im0call"}, "im0call": {"nmi", "im0rst", "im0call"},
+				"im1": {"nmi", "im1"}, "im2": {"nmi", "im2"}}[kind]
+			for j := 0; j < 4; j++ {
+				c.K = int(stats.Hash(ph, uint64(j), uint64(len(kind))) % uint64(ref.n+1))
+				c.Second = seconds[int(stats.Hash(ph, uint64(j), 7)%uint64(len(seconds)))]
+				c.Gap = int(stats.Hash(ph, uint64(j), 9) % 12)
+				switch c.Second {
+				case "im0rst":
+					c.Arg2 = rst
+				case "im2":
+					c.Arg2 = vec ^ 0x5A
+				}
+				o := rig.inject(&c, &ref)
+				col.Eval(1)
+				for i := 0; i < o.repaired; i++ {
+					col.Known(sigIm0, c06Known[sigIm0])
+				}
+				if o.known {
+					col.Known(sigIm0, c06Known[sigIm0])
+					continue
+				}
+				if o.msg != "" {
+					cc := c
+					focus = &cc
+					violation(t, "C07", "transparent", c, "same outcome as the uninterrupted run", fmt.Sprintf("%s at k=%d, then %s: ", c.Kind, c.K, c.Second)+o.msg)
+				}
+				if o.nAcc == 2 {
+					col.Label("two-requests-served-on-one-cpu")
+					col.Distinct(stats.Hash(ph, uint64(c.K), uint64(c.Gap), uint64(len(kind)), uint64(len(c.Second))))
+				}
+			}
+			c.Second, c.Gap, c.Arg2 = "", 0, 0
 		}
 	})
 }
